@@ -969,7 +969,8 @@ class ListBox(Widget, WidgetContainerMixin):
             0,
         )
 
-        self.shift_focus((maxcol, maxrow), rtop)
+        # (an item without rows aligned to the bottom would sit below the last row)
+        self.shift_focus((maxcol, maxrow), min(rtop, maxrow - 1))
 
     def _set_focus_first_selectable(self, size: tuple[int, int], focus: bool) -> None:
         """Choose the first visible, selectable widget below the current focus as the focus widget."""
@@ -1056,7 +1057,8 @@ class ListBox(Widget, WidgetContainerMixin):
             offset = maxrow - rows
         else:
             offset = (maxrow - rows) // 2
-        self.shift_focus((maxcol, maxrow), offset)
+        # (an item without rows would otherwise sit below the last row)
+        self.shift_focus((maxcol, maxrow), min(offset, maxrow - 1))
         return None
 
     def shift_focus(self, size: tuple[int, int], offset_inset: int) -> None:
@@ -1664,12 +1666,15 @@ class ListBox(Widget, WidgetContainerMixin):
         if not t:
             return None
         _ign1, _ign2, pos, _ign3 = t[-1]
-        widget, pos = self._body.get_prev(pos)
-        if widget is None:
-            # no dice, we're stuck here
-            return None
-        # bring in only one row if possible
-        rows = widget.rows((maxcol,), True)
+        while True:
+            widget, pos = self._body.get_prev(pos)
+            if widget is None:
+                # no dice, we're stuck here
+                return None
+            # bring in only one row if possible
+            rows = widget.rows((maxcol,), True)
+            if rows:  # never focus a 0-height widget
+                break
         self.change_focus(
             (maxcol, maxrow),
             pos,
@@ -1841,7 +1846,7 @@ class ListBox(Widget, WidgetContainerMixin):
             return None
 
         # no choices available, just shift current one
-        self.shift_focus((maxcol, maxrow), max(1 - focus_rows, row_offset))
+        self.shift_focus((maxcol, maxrow), min(maxrow - 1, max(1 - focus_rows, row_offset)))
 
         # final check for pathological case where we may fall short
         middle, _top, bottom = self.calculate_visible((maxcol, maxrow), True)
@@ -1854,12 +1859,15 @@ class ListBox(Widget, WidgetContainerMixin):
         if not t:
             return None
         _ign1, _ign2, pos, _ign3 = t[-1]
-        widget, pos = self._body.get_next(pos)
-        if widget is None:
-            # no dice, we're stuck here
-            return None
-        # bring in only one row if possible
-        rows = widget.rows((maxcol,), True)
+        while True:
+            widget, pos = self._body.get_next(pos)
+            if widget is None:
+                # no dice, we're stuck here
+                return None
+            # bring in only one row if possible
+            rows = widget.rows((maxcol,), True)
+            if rows:  # never focus a 0-height widget
+                break
         self.change_focus(
             (maxcol, maxrow),
             pos,
